@@ -362,9 +362,9 @@ func (c *ctx) runShard(bin string, spec ev.ShardSpec, n int) shardResult {
 	_ = os.WriteFile(prog, make([]byte, progressSize), 0o644)
 	timeout := time.Duration(spec.TimeoutS) * time.Second
 	if timeout == 0 {
-		timeout = 20 * time.Minute
+		timeout = 8 * time.Minute
 		if c.tier == "thorough" {
-			timeout = 90 * time.Minute
+			timeout = 60 * time.Minute
 		}
 	}
 	cx, cancel := context.WithTimeout(context.Background(), timeout)
